@@ -420,6 +420,12 @@ def r7_sinks_do_not_swallow(ctx):
                      '' if ok else '%s.add_error takes %d argument(s); seg_error passes %d when this node is current: TypeError, swallowed by the bare except' % (cname, npar, nargs))
 
 
+def r8_shared_reader_counts(ctx):
+    """AK903 is the reader's st_count: its wiring is C04.R1 (shared)"""
+    from . import c04
+    for o in c04.r1_wiring(ctx):
+        yield o
+
 RULES = [
     Rule('C05.R1', 'verdict True only through valid and error-count-zero edges; other exits False', r1_verdict, floor=5),
     Rule('C05.R2', 'sibling "has errors" deciders consult every stored evidence field', r2_evidence, floor=8),
@@ -428,4 +434,5 @@ RULES = [
     Rule('C05.R5', 'every error-tree node visited; both visitors implement every hook', r5_visitors, floor=12),
     Rule('C05.R6', 'AK9 totals wiring and 997/999 sibling agreement', r6_totals, floor=12),
     Rule('C05.R7', 'error sinks record or fail loudly; add_error arity agrees across current-node classes', r7_sinks_do_not_swallow, floor=8),
+    Rule('C05.R8', 'shared with C04.R1: the received-set count the acknowledgement reports is the reader\'s, counted unconditionally', r8_shared_reader_counts, floor=50),
 ]
